@@ -56,7 +56,8 @@ def compare_val():
 
 
 def binary_expression():
-    return field_specifier, ["==", "!=", "^=", "$=", "~=", ">", ">=", "<", "<=", "&"], compare_val
+    # Ordered choice, longer operators must come before their prefixes
+    return field_specifier, ["==", "!=", "^=", "$=", "~=", ">=", ">", "<=", "<", "&"], compare_val
 
 
 def term():
